@@ -76,4 +76,58 @@ PROPS = {
             "octseq OctetsBuilder/FreezeBuilder/EmptyBuilder are modelled by prelude traits (append_slice appends or fails leaving the content unchanged)",
         ],
     },
+    "C01": {
+        "level": "proof",
+        "units": ["nameparse", "labeliter"],
+        "kani": [
+            {"group": "g0", "name": "c01_header_getters_total", "kind": "complete", "tier": "quick",
+             "what": "Message::from_slice + every Header/HeaderCounts/HeaderSection getter on every 12-octet header: no panic, "
+                     "pointer casts in-bounds (CBMC pointer checks), values equal the big-endian fields"},
+            {"group": "g0", "name": "c01_short_message_rejected", "kind": "complete", "tier": "quick",
+             "what": "Message::from_slice accepts exactly slices of >= 12 octets (lengths 0..=12, all contents)"},
+        ],
+        "replays": [
+            {"bin": "d1_iter_slice_self_pointer", "finding": "D1"},
+            {"bin": "d2_canonical_name_ancount", "finding": "D2"},
+        ],
+        "explanation": "The functions every read-side path funnels through are under contract on their real text: octseq Parser "
+                       "(14 methods, registry source), Label::{split_from, from_slice, len, ...}, LabelType::{parse, peek}, "
+                       "ParsedName::parse_ref (terminates for every octet string by a lexicographic measure, never reads outside "
+                       "[0, parser.len), Ok ==> name_wf: the recursive RFC 1035 walk predicate with strictly backward pointers and "
+                       "uncompressed length <= 255), ParsedName::{skip, parser, iter, parent, as_flat_slice}, the *unchecked* "
+                       "ParsedNameIter::{get_label, next, next_back} (panic!(\"bad label\"), index and `len -= ..` underflow "
+                       "unreachable under the validity parse_ref establishes; validity preserved, so results can be iterated again), "
+                       "SliceLabelsIter::next (total on every slice and offset). Kani covers the unsafe header casts.",
+        "not_covered": "Section/record iterators (QuestionSection, RecordSection, ParsedRecord, RecordHeader), typed RDATA parsers, OPT, "
+                       "Message::canonical_name/is_answer (CBMC does not terminate on them: not under contract), dig-style and "
+                       "zone-style Display (core::fmt), ParsedName::split_first (Octets::range), 'traversed twice yields the same "
+                       "result' (follows from purity over an immutable slice; not stated as an obligation).",
+        "assumptions": [
+            "AsRefOctets models the bound AsRef<[u8]>: an octets value has one fixed content returned by every as_ref() call",
+            "error values are modelled by reduced enums (ParseError, FormError, ParsedDnameError); `?` conversions are opaque",
+        ],
+    },
+    "C03": {
+        "level": "proof",
+        "units": ["namecheck", "namebuilder", "nameparse"],
+        "kani": [],
+        "replays": [
+            {"bin": "d5a_push_at_253", "finding": "D5a"},
+            {"bin": "d6_append_slice_open_label", "finding": "D6"},
+            {"bin": "d5_append_label_at_limit", "finding": "D5", "expect": "fail"},
+        ],
+        "explanation": "Name::check_slice / RelativeName::check_slice accept exactly abs_name / rel_name of at most 255 / 254 octets "
+                       "(recursive RFC 1035 predicates), from_slice returns a value only then; the unchecked constructors carry their "
+                       "safety contract as an explicit precondition that every extracted caller proves. NameBuilder::{push, "
+                       "append_slice, end_label, append_label, append_dec_u8_label, finish, into_name} preserve the representation "
+                       "invariant nb_wf (closed labels form a relative name, open label 1..=63 octets, total <= 254), every error "
+                       "leaves octets and open-label state unchanged, finish() yields a valid RelativeName and into_name() a valid "
+                       "Name (lemmas rel_snoc_label, rel_plus_root_is_abs). ParsedName validity: see C01 (nameparse).",
+        "not_covered": "Presentation-text round trip (Display/FromStr: core::fmt and char iterators), append_name/append_origin/"
+                       "append_symbols (label iterators), Chain, UncertainName, slicing/truncation of Name/RelativeName, "
+                       "zonefile::inplace name conversion. Builders that refuse to grow (ShortBuf) are outside the contracts (D13).",
+        "assumptions": [
+            "OctetsBuilder + AsRef<[u8]> + AsMut<[u8]> are modelled by one prelude trait (append_slice appends or fails unchanged; as_mut keeps the length)",
+        ],
+    },
 }
